@@ -1,4 +1,5 @@
 import GodiProofs.Container.KahnOrder
+import GodiProofs.Container.BuildResolves
 import GodiProofs.Props.C08
 /-!
 # C06 (continued): the sorted order is the order the creation loop needs
@@ -33,6 +34,19 @@ theorem build_succeeds_with_the_order_the_sort_returns (beh : Beh) (gb : GoodBeh
     (h2 : topologicalSortWith g1 norder2 = (g2, some l)) :
     (build beh descs (orderIds descs l)).2 = .ok () :=
   Godi.Container.build_succeeds_with_the_order_the_sort_returns beh gb descs hyp hv eorder norder norder2 g1 g2 r l he hn h1 h2
+
+/-- **C08, positive form, end to end**: a registration set with the collection's structural guarantees that passes
+validation, constructors that succeed, the creation order the sort delivers: Build returns a provider, and in it every
+registered service, whatever its lifetime, is constructed without an error (`Container/BuildResolves.lean`: the state
+Build returns has the registered registry, an open root scope, nothing marked constructed-without-value and every
+singleton stored) -/
+theorem built_provider_resolves_every_service (beh : Beh) (gb : GoodBeh beh) (descs : List Desc)
+    (hyp : failedHyps descs = []) (hv : verdict descs = .ok) (l : List Key) (hl : ValidOrder (buildGraph descs) l)
+    (d : Desc) (hd : d ∈ descs) :
+    (build beh descs (orderIds descs l)).2 = .ok () ∧
+    ∃ v, (createInstance beh (fuelFor (build beh descs (orderIds descs l)).1) (build beh descs (orderIds descs l)).1
+      rootScope d).2 = .ok v :=
+  built_provider_resolves_everything beh gb descs hyp hv l hl d hd
 
 open Godi.Props.C08 in
 /-- non-vacuity: the chain example of `Props/C08`, sorted by the model's own sort, is created 8 before 6 -/
